@@ -170,6 +170,7 @@
 //! - iOS: not tested
 //!
 #![forbid(unsafe_code)]
+#![allow(unexpected_cfgs)]
 #[allow(clippy::too_many_arguments)]
 //#![allow(dead_code)]
 mod configuration;
